@@ -175,6 +175,12 @@ def rule_A8(ctx):
                     r.ok(x)
             if isinstance(x, ast.Assign) and any(isinstance(t, ast.Attribute) and t.attr == '_bitarray' for t in x.targets):
                 v = x.value
+                if isinstance(v, ast.Name) and v.id not in f.params():
+                    # a local bitarray built here (and possibly filled) before being installed
+                    vals = [y.value for y in own_walk(f.node) if isinstance(y, ast.Assign) and len(y.targets) == 1 and isinstance(y.targets[0], ast.Name)
+                            and y.targets[0].id == v.id]
+                    if vals and all(isinstance(w, ast.Call) and ast.unparse(w.func).endswith('bitarray.bitarray') for w in vals):
+                        v = vals[0]
                 if not (isinstance(v, ast.Call) and ast.unparse(v.func).endswith('bitarray.bitarray')):
                     r.fail(f.key, x, "a store's _bitarray must be a bitarray built here (copying constructor), not an object handed in", loc=f.loc(x))
                 else:
